@@ -96,7 +96,7 @@ func rootOf(v ssa.Value) (root ssa.Value, fields []ssa.Instruction) {
 const freshOnly = "~"
 
 func freshable(k string) bool {
-	return strings.HasPrefix(k, "F:") || strings.HasPrefix(k, "E:") || strings.HasPrefix(k, "C:")
+	return strings.HasPrefix(k, "F:") || strings.HasPrefix(k, "E:") || strings.HasPrefix(k, "C:") || strings.HasPrefix(k, "MH:") || strings.HasPrefix(k, "MV:")
 }
 
 // writeClass computes the heap class written by a store through address value addr.
@@ -276,6 +276,13 @@ func (fi *FrameInfo) instrEffects(fr *Frame, in ssa.Instruction, ws map[string]b
 		fi.writeClass(fr, x.Addr, ws)
 	case *ssa.MapUpdate:
 		hk, _, vk, _ := mapClasses(x.Map.Type().Underlying().(*types.Map))
+		if _, own := x.Map.(*ssa.MakeMap); own && fr == nil {
+			// an update of a map this function created itself: maps that existed before the
+			// call keep their contents
+			ws[freshOnly+hk] = true
+			ws[freshOnly+vk] = true
+			break
+		}
 		ws[hk] = true
 		ws[vk] = true
 	case *ssa.Next:
